@@ -29,7 +29,7 @@ type Entry struct {
 	Dump     []byte // original DUMP payload, when the key was planted with one
 	Idle     int64
 	Freq     int64
-	SetAtSeq int // sequence number of the command that created/last replaced it
+	SetAtSeq int            // sequence number of the command that created/last replaced it
 	idx      map[string]int // member/field -> position (built lazily, dropped on removal)
 }
 
@@ -134,11 +134,11 @@ type Server struct {
 	scans     map[int64]*scanState
 	cursorSeq int64
 	// LogOnly: commands for which the model only records the call and answers +OK
-	LogOnly func(name string) bool
-	AuthUnknown bool // AUTH is answered like an unknown command (arguments echoed in the error text)
-	Role string // master | slave, for INFO replication
+	LogOnly         func(name string) bool
+	AuthUnknown     bool   // AUTH is answered like an unknown command (arguments echoed in the error text)
+	Role            string // master | slave, for INFO replication
 	InfoReplication func() string
-	Conns []*ConnState
+	Conns           []*ConnState
 }
 
 // ConnState is the per-connection state.
